@@ -172,6 +172,7 @@ type Opts struct {
 	WrapBO func(bo *blockchain.BlockOperations) BlockOps // optional interposer (crash injection, recording)
 	RootDir string                                       // consensus root dir (the WAL lives in <RootDir>/cs.wal/wal)
 	Priv    types.PrivValidator                          // optional wrapper around the validator key
+	WaitTxs bool                                         // the default configuration's CreateEmptyBlocksInterval > 0: round 1 is proposed on the NewRound timeout
 }
 
 // BuildNode constructs a node the way mainchain/backend.go wires it.
@@ -232,6 +233,9 @@ func BuildNode(w *World, id int, o Opts) (*Node, error) {
 	ccfg := configs.TestConsensusConfig()
 	if o.RootDir != "" {
 		ccfg.RootDir = o.RootDir
+	}
+	if o.WaitTxs {
+		ccfg.CreateEmptyBlocksInterval = configs.DefaultConsensusConfig().CreateEmptyBlocksInterval
 	}
 	cs := consensus.NewConsensusState(log.New(), ccfg, st, ops, be, evp)
 	nd := &Node{ID: id, CS: cs, BO: bo, BC: bc, EvPool: evp, Store: store, DB: db, TxPool: pool}
